@@ -60,6 +60,17 @@ func c10Scenarios() []hpScenario {
 		}
 	}
 	add(hpScenario{Hosts: 2, RouteTimeoutMs: 1000, Requests: []hpRequest{{Token: "t1", Oneway: true, Script: []string{upReply200}}}})
+	// one-way requests: admitted, sent, never answered; their stream ends at once or is reset
+	// with the connection (send failure, peer closing while another request is in flight)
+	ow := func(script ...string) hpRequest { return hpRequest{Token: "t1", Oneway: true, Script: script} }
+	for _, th := range []uint32{0, 1} {
+		add(hpScenario{Hosts: 1, RouteTimeoutMs: 1000, MaxRequests: th, Requests: []hpRequest{ow(upClose)}})
+		add(hpScenario{Hosts: 1, RouteTimeoutMs: 1000, MaxRequests: th, FailHosts: []int{0}, Requests: []hpRequest{ow(upReply200)}})
+		add(hpScenario{Hosts: 1, RouteTimeoutMs: 1000, MaxRequests: th, Requests: []hpRequest{ow(upReply200), {Token: "t2", Script: []string{upClose}}}})
+		add(hpScenario{Hosts: 1, RouteTimeoutMs: 1000, MaxRequests: th, Requests: []hpRequest{{Token: "t2", Script: []string{upClose}}, ow(upReply200)}})
+		add(hpScenario{Hosts: 1, RouteTimeoutMs: 1000, MaxRequests: th, Requests: []hpRequest{ow(upReply200), {Token: "t2", Script: []string{upReply200}}}})
+		add(hpScenario{Hosts: 1, RouteTimeoutMs: 1000, MaxRequests: th, Sequential: true, Settle: true, Requests: []hpRequest{{Token: "t2", Script: []string{upClose}}, ow(upReply200), {Token: "t3", Script: []string{upReply200}}}})
+	}
 	add(hpScenario{Hosts: 2, RouteTimeoutMs: 1000, FailHosts: []int{0, 1}, Requests: one(upReply200)})
 	add(hpScenario{Hosts: 2, RouteTimeoutMs: 1000, FailHosts: []int{0}, RetryOn: true, Requests: one(upReply200)})
 	add(hpScenario{Hosts: 1, NoRoute: true, RouteTimeoutMs: 1000, Requests: one(upReply200)})
